@@ -1341,26 +1341,171 @@ def _with_private_helpers(f, names, mod="rrdp::"):
     return seen
 
 
-def check_text_impls_escape(ctx, f, rule="R-CHK"):
-    """Every implementation of xml::encode::Text::write_escaped sends all of its bytes through TextEscape::write_escaped
-    (directly or via the DisplayText adaptor) — there is no path that writes the bytes unescaped.
+# ---------------------------------------------------------------------------------------------
+# "this value is a failure", by meaning
+#
+# The engine's Outcome knows a failure assigned to the return place only as the literal `Err(..)` / `None` / `false` /
+# `from_residual(..)`.  The same value spelt with combinators — `r.and_then(|()| Err(e))`, `Err(e).map_err(g)`,
+# `opt.map_or(Err(a), |_| Err(b))`, a private helper / closure all of whose results are failures — is the same failure.
 
-    Same rule (and obligation keys) as props.common.check_text_impls_escape, which only C09 and C11 use; in addition
-    to `?` / `match` on the escaping call's result it reads the spelling `if call.is_ok() { return Ok(()) }`
-    (and `is_err`): the edge on which `is_ok(<escaping call>)` is true is one on which the escaping call was made
-    and succeeded."""
+_KEEPS_FAILURE = {"map", "map_err", "inspect", "inspect_err", "as_ref", "as_mut", "as_deref", "as_deref_mut", "copied", "cloned",
+                  "and_then", "and", "branch", "into", "from"}
+_STD_CARRIER = re.compile(r"^(std|core)::(option::Option|result::Result)::<")
+
+
+def _fn_always_fails(f, g, kind, depth=0):
+    """the function-valued term g (closure, fn item) yields a failure whenever it returns."""
+    g = strip(g)
+    if g[0] == "fnref":
+        if re.search(r"result::Result::(<.*>::)?Err$", g[1]):
+            return True
+        name = g[1]
+    elif g[0] == "closure":
+        name = g[1]
+    else:
+        return False
+    cb = f.body(name)
+    if cb is None or depth > 4:
+        return False
+    oc = outcome(cb)
+    if oc.kind not in ("result", "option"):
+        return False
+    vals = success_values(cb, oc)
+    return bool(oc.fail_blocks or vals) and all(_always_fails(f, cb, t, oc.kind, depth + 1) for _, _, t in vals)
+
+
+def _always_fails(f, b, t, kind, depth=0):
+    """the Result / Option valued term t (of body b) is `Err` / `None` whatever happens."""
+    t = _unmut(t)
+    if depth > 6:
+        return False
+    if t[0] == "agg":
+        return (t[1] == "std::result::Result" and t[2] == "Err") or (t[1] == "std::option::Option" and t[2] == "None")
+    if t[0] == "var":
+        vs = [v for _, v in outcome(b).sym.defs_of_var(t[2])]
+        return bool(vs) and all(_always_fails(f, b, v, kind, depth + 1) for v in vs)
+    if t[0] != "call":
+        return False
+    info = t[3] or {}
+    name, a = info.get("name"), t[2]
+    if name == "from_residual":
+        return True
+    std = bool(_STD_CARRIER.match(info.get("fn") or "")) or (info.get("trait") or "").endswith(("ops::Try", "convert::Into", "convert::From"))
+    if std and a:
+        if name in _KEEPS_FAILURE and _always_fails(f, b, a[0], kind, depth + 1):
+            return True
+        if name == "and_then" and len(a) == 2 and _fn_always_fails(f, a[1], kind, depth + 1):
+            return True
+        if name == "and" and len(a) == 2 and _always_fails(f, b, a[1], kind, depth + 1):
+            return True
+        if name in ("or", "xor") and len(a) == 2:
+            return name == "or" and _always_fails(f, b, a[0], kind, depth + 1) and _always_fails(f, b, a[1], kind, depth + 1)
+        if name == "or_else" and len(a) == 2:
+            return _always_fails(f, b, a[0], kind, depth + 1) and _fn_always_fails(f, a[1], kind, depth + 1)
+        if name == "map_or" and len(a) == 3:
+            return _always_fails(f, b, a[1], kind, depth + 1) and _fn_always_fails(f, a[2], kind, depth + 1)
+        if name == "map_or_else" and len(a) == 3:
+            return _fn_always_fails(f, a[1], kind, depth + 1) and _fn_always_fails(f, a[2], kind, depth + 1)
+        if name in ("ok_or", "ok_or_else", "ok", "err", "transpose"):
+            return False
+        return False
+    # a function of the crate that can only fail
+    callee = info.get("res") or t[1]
+    r = f.fns.get(callee) or {}
+    if callee in f.bodies and not r.get("exported"):
+        return _fn_always_fails(f, ("fnref", callee), kind, depth + 1)
+    return False
+
+
+class _semantic_failures:
+    """While active, the Outcome of `body` also counts as failure blocks those that put a value into the return place
+    which is a failure by meaning (see above).  Only ever adds failures that are failures."""
+
+    def __init__(self, f, body):
+        self.f, self.body = f, body
+        self.added = set()
+
+    def __enter__(self):
+        b, oc = self.body, outcome(self.body)
+        if oc.kind in ("result", "option"):
+            for bi, _, t in success_values(b, oc):
+                if bi not in oc.fail_blocks and _always_fails(self.f, b, t, oc.kind):
+                    # (a block that also assigns a success value elsewhere keeps that assignment: only whole-value failures)
+                    if all(_always_fails(self.f, b, t2, oc.kind) for bj, _, t2 in success_values(b, oc) if bj == bi):
+                        self.added.add(bi)
+            oc.fail_blocks |= self.added
+            oc.success_assign_blocks -= self.added
+        return self
+
+    def __exit__(self, *a):
+        oc = outcome(self.body)
+        oc.fail_blocks -= self.added
+        oc.success_assign_blocks |= self.added
+
+
+def _escaping_writers(f):
+    """The function(s) of xml::encode that do the escaping, by what they are: they take an escape mode and the bytes, and
+    consult the replacement table (the function R-CLS reads the byte classes from) — whatever they are called."""
+    ENUM = "xml::encode::TextEscape"
+    rep = escape_table(f)["body"]
+    out = set()
+    if rep is None:
+        return out
+    from engine.callgraph import CallGraph
+    cg = CallGraph(f)
+    for n, r in f.fns.items():
+        if not r.get("has_body") or n not in f.bodies or r.get("impl_trait") or not n.startswith("xml::encode::") or n == rep.name:
+            continue
+        ins = [re.sub(r"^&(?:'\w+ )?(?:mut )?", "", i) for i in r.get("inputs", ())]
+        if ENUM not in ins or not any(i in ("[u8]", "str") for i in ins):
+            continue
+        reach = {n} | {m for m in cg.edges(n) if root_fn(f, m) == n}
+        if any(rep.name in cg.edges(m) for m in reach):
+            out.add(n)
+    return out
+
+
+def _fmt_adaptors(f):
+    """ADTs of xml::encode that implement fmt::Write (the Display → escaped bytes adaptor), with their write_str bodies."""
+    out = {}
+    for n, r in f.fns.items():
+        if r.get("impl_trait") == "std::fmt::Write" and r.get("name") == "write_str" and (r.get("impl_adt") or "").startswith("xml::encode::") \
+                and n in f.bodies:
+            out[r["impl_adt"]] = n
+    return out
+
+
+def check_text_impls_escape(ctx, f, rule="R-CHK"):
+    """Every implementation of xml::encode::Text::write_escaped sends all of its bytes through the escaping writer
+    (directly or via the fmt::Write adaptor) — there is no path that writes the bytes unescaped.
+
+    Same rule (and obligation keys) as props.common.check_text_impls_escape, which only C09 and C11 use.  What it needs
+    is found by role: the escaping writer is the function of xml::encode from (mode, bytes, target) that consults the
+    replacement table; the adaptor is the type of xml::encode implementing fmt::Write (formatting into it — `write!`,
+    `write_fmt`, `write_str` — is escaping, because its write_str is held to the same rule).  Whether a path is a
+    success path is decided by meaning: `?`, `match`, `if r.is_ok()`, `r.and_then(|()| Err(..))`, `map_err` … ."""
+    writers = _escaping_writers(f) or {"xml::encode::TextEscape::write_escaped"}
+    adaptors = _fmt_adaptors(f)
+
+    def into_adaptor(c):
+        if c.trait != "std::fmt::Write" or c.name not in ("write_fmt", "write_str", "write_char"):
+            return False
+        self_ty = (c.ga[0] if c.ga else "") or ""
+        return any(self_ty == a or self_ty.startswith(a + "<") for a in adaptors)
+
     def sink(c):
-        return (c.res or "") == "xml::encode::TextEscape::write_escaped" or \
-            (c.name == "write_fmt" and "DisplayText::new(" in (K.arg_renders(c) or [""])[0])
+        return (c.res or "") in writers or into_adaptor(c)
 
     def sink_term(t):
         t = strip_deep(t)
         if t[0] != "call":
             return False
         info = t[3] or {}
-        if (info.get("res") or info.get("fn") or "") == "xml::encode::TextEscape::write_escaped":
+        if (info.get("res") or info.get("fn") or "") in writers:
             return True
-        return info.get("name") == "write_fmt" and bool(t[2]) and "DisplayText::new(" in render(t[2][0])
+        self_ty = (info.get("ga") or ("",))[0] or ""
+        return info.get("trait") == "std::fmt::Write" and info.get("name") in ("write_fmt", "write_str", "write_char") and \
+            any(self_ty == a or self_ty.startswith(a + "<") for a in adaptors)
 
     def is_ok_edge(bd, sy, bb):
         t = bd.term(bb)
@@ -1376,15 +1521,16 @@ def check_text_impls_escape(ctx, f, rule="R-CHK"):
     n = 0
     for name, b in sorted(f.bodies.items()):
         m = re.match(r"^<(.+) as xml::encode::Text>::write_escaped$", name)
-        disp = re.match(r"^<xml::encode::DisplayText<.*> as std::fmt::Write>::write_str$", name)
+        disp = name in adaptors.values()
         if not m and not disp:
             continue
         n += 1
         ctx.saw_fn(name)
-        mp = MustPass(f, sink, guard_fn=is_ok_edge, name="TextEscape::write_escaped")
-        ok = mp.holds(name)
-        raw = [c.where() for c in b.calls() if not b.is_cleanup(c.bb) and c.name in ("write_all", "write") and
-               (c.trait or "").endswith("io::Write")]
+        mp = MustPass(f, sink if m else (lambda c: (c.res or "") in writers), guard_fn=is_ok_edge, name="TextEscape::write_escaped")
+        with _semantic_failures(f, b):
+            ok = mp.holds(name)
+        raw = [c.where() for c in b.calls() if not b.is_cleanup(c.bb) and
+               c.name in ("write_all", "write", "write_fmt", "write_vectored", "write_all_vectored") and (c.trait or "").endswith("io::Write")]
         ctx.ob(rule, "%s:escapes-everything" % short(name), ok and not raw,
                "%s writes nothing that did not pass TextEscape::write_escaped" % short(name), where=b.loc,
                detail={"unescaped_writes": raw, "path": None if ok else K.why(f, mp, name)})
